@@ -83,6 +83,21 @@ Theorem C15_concurrent_lookups_served : forall d ops scan sched,
 Proof. exact concurrent_lookups_served. Qed.
 Print Assumptions C15_concurrent_lookups_served.
 
+(* ... and no lookup waits forever: for ALL configurations (scan length and LOG LEVEL — which nothing in the
+   model consults: logging has no influence on locks, answers or the directory), all numbers of simultaneous
+   operations and all schedules, in every reachable state the work left (phi) is at most threads * (scan + 2),
+   no tick increases it, and unless every operation has returned some thread can take a step that decreases
+   it.  No deadlock — in particular no thread ever waits for a mutex it holds itself — and under any fair
+   schedule every lookup returns after at most threads * (scan + 2) effective ticks. *)
+Theorem C15_lookups_never_deadlock : forall cfg d ops sched,
+  let c := crun_cfg cfg ops (cstart d (length ops)) sched in
+  (phi (cc_scan cfg) c <= length ops * (cc_scan cfg + 2))%nat /\
+  (forall i, phi (cc_scan cfg) (tstep ops (cc_scan cfg) c i) <= phi (cc_scan cfg) c)%nat /\
+  (all_done c = true \/
+   exists i, (i < length ops)%nat /\ (phi (cc_scan cfg) (tstep ops (cc_scan cfg) c i) < phi (cc_scan cfg) c)%nat).
+Proof. exact lookups_never_deadlock. Qed.
+Print Assumptions C15_lookups_never_deadlock.
+
 (* misses are compiled normally as far as the storage is concerned: after any read-only history of a
    freshly started server an entry that is not in the directory is a miss, and the store of the
    compiled result is refused without any effect *)
